@@ -8,6 +8,7 @@ import Resonate.Generated.Sql
 import Resonate.Proofs.Wf
 import Resonate.Model.Json
 import Resonate.Model.Poll
+import Resonate.Model.Resolve
 open Lean
 namespace Resonate
 
@@ -95,6 +96,46 @@ def handleLine (st : DriverState) (line : String) : DriverState × Json :=
           | .ok rss => Json.mkObj [("err", Json.null), ("results", toJson (rss.map fun rs => rs.map resToJson)), ("db", toJson db')]
           | .error e => Json.mkObj [("err", storeErrToString e), ("results", Json.arr #[]), ("db", toJson db')]
         ({ db := db' }, out)
+    | .ok "route_tag" =>
+      let tag : Option (List Char) := (j.getObjValAs? String "tag").toOption.map String.toList
+      match Resolve.routeTag tag with
+      | none => (st, Json.mkObj [("matched", false)])
+      | some a =>
+        let aj := match a with
+          | .logical n => Json.mkObj [("k", "logical"), ("name", String.ofList n)]
+          | .physical t d => Json.mkObj [("k", "physical"), ("type", String.ofList t), ("data", match d with | some r => Json.str (String.ofList r) | none => Json.null)]
+        (st, Json.mkObj [("matched", true), ("address", aj), ("recv", String.ofList (Resolve.recvBytes a))])
+    | .ok "dispatch" =>
+      let recv := (j.getObjValAs? String "recv").toOption.getD ""
+      let plugins := (j.getObjValAs? (List String) "plugins").toOption.getD []
+      let targets : List Resolve.Target := match j.getObjVal? "targets" with
+        | .ok (.arr ts) => ts.toList.filterMap fun t => do
+            let n ← (t.getObjValAs? String "name").toOption
+            let ty ← (t.getObjValAs? String "type").toOption
+            let d ← (t.getObjValAs? String "data").toOption
+            pure { name := n, type := ty, data := d }
+        | _ => []
+      let parsed : Option Resolve.Url := match j.getObjVal? "parsed" with
+        | .ok p => do
+            let sc ← (p.getObjValAs? String "scheme").toOption
+            let h ← (p.getObjValAs? String "host").toOption
+            let pa ← (p.getObjValAs? String "path").toOption
+            let s ← (p.getObjValAs? String "str").toOption
+            pure { scheme := sc, host := h, path := pa, str := s }
+        | _ => none
+      let o := Resolve.dispatch (Resolve.effectiveTargets targets) plugins (fun _ => parsed) recv.toList
+      let stored := match Resolve.readStored recv.toList with
+        | .logical n => Json.mkObj [("k", "logical"), ("name", String.ofList n)]
+        | .physical t d => Json.mkObj [("k", "physical"), ("type", String.ofList t), ("data", match d with | some r => Json.str (String.ofList r) | none => Json.null)]
+        | .neither => Json.mkObj [("k", "neither")]
+        | .invalid => Json.mkObj [("k", "invalid")]
+      let oj := match o with
+        | .handed p d => Json.mkObj [("k", "handed"), ("plugin", p), ("data", d)]
+        | .unknownReceiver => Json.mkObj [("k", "unknownReceiver")]
+        | .unknownPlugin t => Json.mkObj [("k", "unknownPlugin"), ("type", t)]
+        | .undecodable => Json.mkObj [("k", "undecodable")]
+        | .bothNil => Json.mkObj [("k", "bothNil")]
+      (st, Json.mkObj [("outcome", oj), ("stored", stored)])
     | .ok "poll_init" =>
       ({ st with poll := { max := (j.getObjValAs? Nat "max").toOption.getD 0 } }, Json.mkObj [("ok", true)])
     | .ok "poll_connect" | .ok "poll_disconnect" | .ok "poll_shutdown" | .ok "poll_read" =>
